@@ -1,7 +1,7 @@
 (* C01 — property theorems only: what "converged" means and why preconditioner / initial guess
    cannot change the answer.  (Convergence of the iteration itself is the property's premise.) *)
 From Coq Require Import List Arith Bool Ring.
-From PySDC Require Import Model.Sweep Proofs.SweepProofs.
+From PySDC Require Import Model.Sweep Model.Transfer Model.MultiLevel Model.Block Proofs.SweepProofs Proofs.MultiLevelProofs Proofs.MultiLevelExample Proofs.BlockProofs Proofs.BlockExample.
 Import ListNotations.
 
 Section C01.
@@ -95,3 +95,59 @@ Print Assumptions C01_explicit_fixed_point_is_collocation.
 Print Assumptions C01_explicit_collocation_is_fixed_point.
 Print Assumptions C01_multi_implicit_fixed_point_is_collocation.
 Print Assumptions C01_residual_zero_iff_collocation.
+
+(* ------------------------------------------------------------------------------------------------
+   Blocks of time-parallel steps (MSSDC / MLSDC / PFASST).  Model/Block.v: the state of every (step, level) and the four
+   primitive operations the controller composes (Sweep, Recv = forward transfer of the end value, Restrict, Prolong);
+   pfasst_iteration = the schedule of one controller iteration, tied to the real controller_nonMPI by exact correspondence on
+   blocks of 2-3 steps with 1-3 levels (Jacobi and Gauss-Seidel coupling, generic_implicit and IMEX sweepers, both
+   prolongation modes) every run.
+
+   THEOREM: a block whose fine levels hold the collocation solutions of their steps (holds_solution: consistent right-hand
+   sides, zero defect), chained by their end values (initial value of step p = last node of step p-1), is left unchanged —
+   same values at every node and the initial point, same right-hand sides — by EVERY schedule of sweeps, forward transfers,
+   restrictions and prolongations inside the hierarchy: any number of steps and levels, any number of sweeps, any order
+   (Jacobi, Gauss-Seidel, or anything else).  Number of time-parallel steps, coupling mode, coarse levels and sweep counts can
+   change how fast the iteration gets there, never the fixed point. *)
+Section C01_block.
+  Context {K : Type} (kO kI : K) (kadd kmul ksub : K -> K -> K) (kopp : K -> K) (keqb : K -> K -> bool).
+  Hypothesis Rth : ring_theory kO kI kadd kmul ksub kopp (@eq K).
+  Hypothesis keqb_true : forall a b, keqb a b = true -> a = b.
+  Context {X : Type}.
+  Variable imex : bool.
+  Variable lev : nat -> @level K X.
+  Variable xf : nat -> @xfer K X.
+  Variable tstart : nat -> K.
+  Variable P L : nat.
+  Hypothesis Hlev : forall l, l < L -> level_ok kO kmul ksub keqb imex (lev l) /\ 1 <= lM (lev l).
+  Hypothesis Hxf : forall l, S l < L ->
+    xfer_ok kO kI kadd ksub (xf l) (lev l) (lev (S l)) /\
+    (forall m, 1 <= m <= lM (lev l) -> xRcoll (xf l) (lM (lev (S l))) m = if Nat.eqb m (lM (lev l)) then kI else kO).
+  Variable R0 : nat -> @lvst K X.
+  Hypothesis H0 : forall p, p < P ->
+    holds_solution kO kadd kmul ksub (tstart p) imex (lev 0) (stau (R0 p)) (su (R0 p), sf (R0 p)).
+  Hypothesis Hchain : forall p, 0 < p < P -> forall x, su (R0 p) 0 x = su (R0 (p - 1)) (lM (lev 0)) x.
+
+  Theorem C01_block_fixed_point_any_schedule : forall ops,
+    Forall (op_in_bounds L) ops ->
+    forall p, p < P -> 0 < L ->
+    let B := run_ops kO kadd kmul ksub keqb imex lev xf tstart ops (init_block kO P R0) in
+    svalid (B p 0) = true ->
+    same (lev 0) (su (B p 0), sf (B p 0)) (su (R0 p), sf (R0 p)).
+  Proof. exact (block_fixed_point_any_schedule kO kI kadd kmul ksub kopp keqb Rth keqb_true imex lev xf tstart P L Hlev Hxf R0 H0 Hchain). Qed.
+
+  (* the controller's own schedule is one of them *)
+  Theorem C01_controller_schedule_in_bounds : forall nsw jacobi, Forall (op_in_bounds L) (pfasst_iteration P L nsw jacobi).
+  Proof. exact (pfasst_iteration_in_bounds L P). Qed.
+End C01_block.
+Print Assumptions C01_block_fixed_point_any_schedule.
+Print Assumptions C01_controller_schedule_in_bounds.
+
+(* Non-vacuity: a concrete block (2 steps, 2 levels, Qc) meets every hypothesis, all entries stay valid under the controller's
+   schedule, and the theorem returns both steps unchanged *)
+Example C01_block_hypotheses_satisfiable :
+  forall p, p < 2 ->
+  let B := run_ops exK0 Qcanon.Qcplus Qcanon.Qcmult Qcanon.Qcminus ex_eqb false bx_lev bx_xf bx_tstart bx_ops (init_block exK0 2 bx_R0) in
+  same (bx_lev 0) (su (B p 0), sf (B p 0)) (su (bx_R0 p), sf (bx_R0 p)).
+Proof. exact bx_fixed. Qed.
+Print Assumptions C01_block_hypotheses_satisfiable.
